@@ -409,7 +409,14 @@ func e2eSession(c *vh.Ctx, idx int) {
 		}
 		line := fmt.Sprintf("M %s | %s", strings.Join(sp, ","), ds)
 		ctxs := fmt.Sprintf("%s limit=%d pct=%d gens=%d %s", dir, limit, pct, mb.gens, line)
-		c.Case(line, fmt.Sprintf("%d/%s", idx, line), true)
+		before := len(c.Sum.OracleFailures)
+		defer func() {
+			// logs the oracle already rejected are reported as its failure (with the session's
+			// context for the known-findings match), not a second time through the monitor
+			if len(c.Sum.OracleFailures) == before {
+				c.Case(line, fmt.Sprintf("%d/%s", idx, line), true)
+			}
+		}()
 		c.Count(fmt.Sprintf("M/%s/ok=%d/of=%d", dir, nOK, len(sent)))
 		// oracle
 		cnt := map[int]int{}
